@@ -93,7 +93,7 @@ var properties = map[string]PropSpec{
 	},
 	"C12": {
 		Level: "other",
-		Explanation: "R-CONV: a user-declared alias of Stack/Condition (or a pointer to one) reaches the same code as the native value - the necessary condition for behaving like it. ASSERT: the package recognises a Stack or Condition by a plain type assertion (which no alias satisfies) nowhere except in the two converters themselves and in three positive fast paths (isNesting, canPushNester, the Condition-side no-nesting filter) whose other branch goes through the converter; the census of such assertions is re-done on every run. FIRST: in condition.string and stack.defaultAssertionHandler a value is rendered through its own String method or the primitive stringer only on paths where both converters have been applied to that very value and declined it, so an alias that has its own String method is still rendered as the Stack/Condition it is. USES: each consumer named by the property (String on both types, IsEqual, Unmarshal on both types, Traverse's two helpers, both IsNesting, Condition.Len, both no-nesting filters, Defrag, Transfer) calls the converter(s); stackageStructsEqual applies IsEqual to the converted first operand with the converted second operand; ConvertStack/ConvertCondition return the converter's results unchanged. SELF: every (zero,false) return path of each converter is justified by a nil argument, a zero native or converted instance, or ConvertibleTo()==false evaluated on derefPtr(typOf(u), valOf(u)) of the argument itself - nothing else can decline a value (e.g. a kind test before pointers are followed). TYPEID: two reflect.Types are compared for identity only inside the confirmed leaf comparers (channels, functions, maps) that valuesEqual reaches after both converters declined. derefPtr follows pointers to the end, and applies Elem()/Indirect only to a Value that tested non-nil (a typed nil pointer to an alias stays a pointer and is declined, not turned into the zero Value). FIRST also covers the equality functions: none of them may judge a value by its own String method before both converters declined it. R-TT on Condition.Valid: validity depends on keyword, operator and expression being present, never on the type of the expression (an alias without a String method of its own is as valid as the native value). R-STR EMPTY: the rendering a nested alias contributes is the one the assertion handler returned, nothing of its own. R-CONV: an element is handed back raw by Unmarshal only where both converters declined it. R-TT on stackageStructsEqual. R-LOOPRET on (*stack).isEqual: the element loop is left early only with a recorded difference - no test of its own (pointer or value) ends it. Shared conversion helpers, checked in every property that recognises nested Stacks/Conditions: derefPtr follows pointers to the end, only while non-nil, type and value together (R-COVER), isStackKind judges by the pointer-flattened type (R-TT), and the converters write no package-level state (R-CONV: no memo keyed by type).",
+		Explanation: "R-CONV: a user-declared alias of Stack/Condition (or a pointer to one) reaches the same code as the native value - the necessary condition for behaving like it. ASSERT: the package recognises a Stack or Condition by a plain type assertion (which no alias satisfies) nowhere except in the two converters themselves and in three positive fast paths (isNesting, canPushNester, the Condition-side no-nesting filter) whose other branch goes through the converter; the census of such assertions is re-done on every run. FIRST: in condition.string and stack.defaultAssertionHandler a value is rendered through its own String method or the primitive stringer only on paths where both converters have been applied to that very value and declined it, so an alias that has its own String method is still rendered as the Stack/Condition it is. USES: each consumer named by the property (String on both types, IsEqual, Unmarshal on both types, Traverse's two helpers, both IsNesting, Condition.Len, both no-nesting filters, Defrag, Transfer) calls the converter(s); stackageStructsEqual applies IsEqual to the converted first operand with the converted second operand; ConvertStack/ConvertCondition return the converter's results unchanged. SELF: every (zero,false) return path of each converter is justified by a nil argument, a zero native or converted instance, or ConvertibleTo()==false evaluated on derefPtr(typOf(u), valOf(u)) of the argument itself - nothing else can decline a value (e.g. a kind test before pointers are followed). TYPEID: two reflect.Types are compared for identity only inside the confirmed leaf comparers (channels, functions, maps) that valuesEqual reaches after both converters declined. derefPtr follows pointers to the end, and applies Elem()/Indirect only to a Value that tested non-nil (a typed nil pointer to an alias stays a pointer and is declined, not turned into the zero Value). FIRST also covers the equality functions: none of them may judge a value by its own String method before both converters declined it. R-TT on Condition.Valid: validity depends on keyword, operator and expression being present, never on the type of the expression (an alias without a String method of its own is as valid as the native value). R-STR EMPTY: the rendering a nested alias contributes is the one the assertion handler returned, nothing of its own. R-CONV: an element is handed back raw by Unmarshal only where both converters declined it. R-TT on stackageStructsEqual. R-LOOPRET on (*stack).isEqual: the element loop is left early only with a recorded difference - no test of its own (pointer or value) ends it. Shared conversion helpers, checked in every property that recognises nested Stacks/Conditions: derefPtr follows pointers to the end, only while non-nil, type and value together (R-COVER), isStackKind judges by the pointer-flattened type (R-TT), and the converters write no package-level state (R-CONV: no memo keyed by type). R-APPEND: what Push stores is the very value offered (a pointer to an alias stays that pointer).",
 		NotDecided: "that the results (String, IsEqual in both directions, Unmarshal, Traverse, ...) coincide with those of the native tree: functional equality; the rule ensures the alias reaches the native code path. derefPtr's pointer-following loop is covered for panics by C08, not for 'all levels' as a functional statement.",
 		Run: func(c *Ctx) {
 			c.converterHelpers()
@@ -106,6 +106,7 @@ var properties = map[string]PropSpec{
 			c.ruleStrEmpty()     // a nested alias contributes the rendering the assertion handler returned, nothing of its own
 			c.ruleUnmarshalRaw() // an alias is never handed back raw: only what both converters declined is
 			c.ttStackageStructsTried()
+			c.rulePushLoops() // what is stored is the very value offered (a pointer to an alias stays a pointer)
 			if f := c.anchor("R-LOOPRET", "(*stack).isEqual"); f != nil {
 				c.ruleEqLoops([]*ssa.Function{f}) // elements are compared after conversion only: no test of its own (pointer or not) ends the loop
 			}
@@ -114,7 +115,7 @@ var properties = map[string]PropSpec{
 	},
 	"C16": {
 		Level: "other",
-		Explanation: "Marshal returns normally for every []any and ends in 'error, or an initialised receiver'. PANIC: the nil / type-assertion / bounds / reflect census restricted to everything reachable from Marshal, with preconditions checked at every call site and none allowed at the exported entry: in[0], in[1:], the CONDITION row positions 1..3 and every assertion on a label, keyword, operator or nested slice are guarded for every shape of input (empty and nested envelopes, rows of any width, wrongly typed fields). OUT: marshalDefault's 70-odd return path states each yield a non-nil error, a Stack built by a constructor, or a Condition for which extractConditionValues reported ok (= IsInit() of the Condition it returns, built only from a row of width 4); Marshal's return paths each yield a non-nil error, a receiver seated with the decoded Stack under IsInit()==true, marshalDefault's own error where it produced nothing, or - receiver already initialised - at most one Push of exactly one decoded value. LABEL: every keyword comparison is made on uc(label); the reader knows every word the writer can emit and CONDITION; an unrecognised first element yields Basic().Push(in...), a recognised one stackByWord(label).Push(in[1:]...). ROW: width 4 is required and keyword/operator/expression are read from positions 1/2/3 by checked assertions. REPROC: every nested []any entry 0..Len-1 is decoded by marshalDefault itself and replaced in place by the initialised Stack/Condition it yields. The census covers everything reachable from Marshal, String, Unmarshal and IsEqual (the methods the statement says must return normally on the result). R-CONDSTORE: an operator taken from a CONDITION row is refused, not invoked, when it is nil or a nil pointer. The decoder creates its stacks without a capacity argument. On the built-in path of an initialised receiver Marshal returns nil only where Len() is known to differ from the Len() read before the push (a full, read-only or refusing receiver yields an error); R-DISPATCH for Marshal: no shortcut around the built-in reader. R-NILPTR: a method of the package's own interfaces (Operator, Interface) is invoked on a user-supplied value only where an in-package nil-pointer predicate said no about it, or on the operator stored in a Condition: a nil *Stack / *Condition / *ComparisonOperator among the values never has a method called through it. The census also covers the package's own Operator implementation (ComparisonOperator.String/Context), reached through the interface. R-TT: without no-nesting canPushNester refuses nothing (a zero Stack entry is kept). Labels are folded with strings.ToUpper itself (a hand-written fold is not taken on trust). R-LOCK pairing and re-entrancy over the whole package: Marshal returns on a mutex-enabled receiver, too. R-COVER derefPtr (typed nil pointers in the input: type and value advance together). R-TBL KINDS: every kind constant has the type word's own label. Shared conversion helpers, checked in every property that recognises nested Stacks/Conditions: derefPtr follows pointers to the end, only while non-nil, type and value together (R-COVER), isStackKind judges by the pointer-flattened type (R-TT), and the converters write no package-level state (R-CONV: no memo keyed by type).",
+		Explanation: "Marshal returns normally for every []any and ends in 'error, or an initialised receiver'. PANIC: the nil / type-assertion / bounds / reflect census restricted to everything reachable from Marshal, with preconditions checked at every call site and none allowed at the exported entry: in[0], in[1:], the CONDITION row positions 1..3 and every assertion on a label, keyword, operator or nested slice are guarded for every shape of input (empty and nested envelopes, rows of any width, wrongly typed fields). OUT: marshalDefault's 70-odd return path states each yield a non-nil error, a Stack built by a constructor, or a Condition for which extractConditionValues reported ok (= IsInit() of the Condition it returns, built only from a row of width 4); Marshal's return paths each yield a non-nil error, a receiver seated with the decoded Stack under IsInit()==true, marshalDefault's own error where it produced nothing, or - receiver already initialised - at most one Push of exactly one decoded value. LABEL: every keyword comparison is made on uc(label); the reader knows every word the writer can emit and CONDITION; an unrecognised first element yields Basic().Push(in...), a recognised one stackByWord(label).Push(in[1:]...). ROW: width 4 is required and keyword/operator/expression are read from positions 1/2/3 by checked assertions. REPROC: every nested []any entry 0..Len-1 is decoded by marshalDefault itself and replaced in place by the initialised Stack/Condition it yields. The census covers everything reachable from Marshal, String, Unmarshal and IsEqual (the methods the statement says must return normally on the result). R-CONDSTORE: an operator taken from a CONDITION row is refused, not invoked, when it is nil or a nil pointer. The decoder creates its stacks without a capacity argument. On the built-in path of an initialised receiver Marshal returns nil only where Len() is known to differ from the Len() read before the push (a full, read-only or refusing receiver yields an error); R-DISPATCH for Marshal: no shortcut around the built-in reader. R-NILPTR: a method of the package's own interfaces (Operator, Interface) is invoked on a user-supplied value only where an in-package nil-pointer predicate said no about it, or on the operator stored in a Condition: a nil *Stack / *Condition / *ComparisonOperator among the values never has a method called through it. The census also covers the package's own Operator implementation (ComparisonOperator.String/Context), reached through the interface. R-TT: without no-nesting canPushNester refuses nothing (a zero Stack entry is kept). Labels are folded with strings.ToUpper itself (a hand-written fold is not taken on trust). R-LOCK pairing and re-entrancy over the whole package: Marshal returns on a mutex-enabled receiver, too. R-COVER derefPtr (typed nil pointers in the input: type and value advance together). R-TBL KINDS: every kind constant has the type word's own label. Shared conversion helpers, checked in every property that recognises nested Stacks/Conditions: derefPtr follows pointers to the end, only while non-nil, type and value together (R-COVER), isStackKind judges by the pointer-flattened type (R-TT), and the converters write no package-level state (R-CONV: no memo keyed by type). R-MARSHAL: the decoder keeps no package-level state and leaves its input as given.",
 		NotDecided: "what a user-installed marshaler closure does; panics inside user String()/Operator code.",
 		Run: func(c *Ctx) {
 			c.converterHelpers()
@@ -138,6 +139,7 @@ var properties = map[string]PropSpec{
 			c.ruleCondStores() // a wrongly typed or nil-pointer operator in a CONDITION row is refused, not invoked
 			c.ruleDerefLoop()  // typed nil pointers in the input: type and value flattened in step
 			c.ruleKindLabels() // every kind has its label
+			c.ruleReaderStateless() // the decoder keeps no package-level state and leaves its input as given
 			c.ruleDeenvelope()
 			c.ruleMarshalReproc()
 			c.ruleMarshalOut()
@@ -154,7 +156,7 @@ var properties = map[string]PropSpec{
 	},
 	"C04": {
 		Level: "other",
-		Explanation: "Writer (Unmarshal) and reader (Marshal) agree on the wire format - the structural precondition of the round trip. KINDS: constructor -> kind constant -> word (stackType.String) -> constructor (stackByWord) is the identity on AND, OR, NOT, LIST, BASIC, the words are upper case, and the reader's dispatch knows each of them and CONDITION. LABEL: every keyword comparison on the reader side is made on uc(label), so the lower-case words a case-folded stack emits are honoured. WRITE: stack.unmarshalDefault emits the kind word first and then exactly one entry per slot 0..Len-1 in ascending order - nil slots included (no dependence on the lookup's found flag) - a nested Stack or Condition (recognised through both alias converters) as its own unmarshalled form, anything else as is; an error ends the loop. ROW: a Condition is written as [CONDITION, keyword, operator, expression-or-its-Unmarshal()] and read back from a row of width 4, positions 1/2/3, by checked assertions, the expression decoded by marshalDefault when it is a slice. REPROC: the reader re-processes every entry 0..Len-1 of the stack it built and replaces entry i only by the initialised Stack/Condition marshalDefault made of that very entry. R-MARSHAL also requires that the decoder creates its stacks without a capacity argument (a capacity would be observable and could drop entries). R-DISPATCH (restricted to Stack.Unmarshal, Condition.Unmarshal, Marshal): with no closure installed the built-in writer/reader runs on every path - no shortcut around it. R-SEQ (Push wrapper and push loops, from C01): the reader rebuilds through Push, whose arguments reach the worker unchanged and are appended in order. The CONDITION row reader yields no Condition only when its nested expression decoded to neither an initialised Stack nor an initialised Condition (an empty Stack is still a Stack). R-SEQ for Replace (nested rows are converted in place through it: every position 0..Len-1 can be replaced) and R-BACKCAP (the capacity IsEqual compares is the configured one). The label written is the kind word, never a presentation setting; an uninitialised receiver that adopts the decoded stack returns the decoder's own verdict (an empty stack such as [AND] is a stack). R-DISPATCH also covers the two IsEqual dispatchers (with no closure installed nothing but the built-in comparison decides - e.g. not the FIFO mode, which the wire format does not carry) and R-CONV the converters (the writer expands exactly what they recognise). R-CONDSTORE: the constructor the reader rebuilds Conditions through offers each of the three components on every path, with its own argument, whatever became of the others (a partial Condition keeps its expression). R-SEQ: Replace - through which nested rows are installed - refuses a value only for being nil. R-TBL KINDS: (*nodeConfig).kind is evaluated over the kind constants (a small constant interpreter follows its paths with the type word bound to each constant): no defined kind, BASIC included, is labelled \"null\". R-CONV: stack.unmarshalDefault hands an element back raw only where both converters declined that very element. Shared conversion helpers, checked in every property that recognises nested Stacks/Conditions: derefPtr follows pointers to the end, only while non-nil, type and value together (R-COVER), isStackKind judges by the pointer-flattened type (R-TT), and the converters write no package-level state (R-CONV: no memo keyed by type).",
+		Explanation: "Writer (Unmarshal) and reader (Marshal) agree on the wire format - the structural precondition of the round trip. KINDS: constructor -> kind constant -> word (stackType.String) -> constructor (stackByWord) is the identity on AND, OR, NOT, LIST, BASIC, the words are upper case, and the reader's dispatch knows each of them and CONDITION. LABEL: every keyword comparison on the reader side is made on uc(label), so the lower-case words a case-folded stack emits are honoured. WRITE: stack.unmarshalDefault emits the kind word first and then exactly one entry per slot 0..Len-1 in ascending order - nil slots included (no dependence on the lookup's found flag) - a nested Stack or Condition (recognised through both alias converters) as its own unmarshalled form, anything else as is; an error ends the loop. ROW: a Condition is written as [CONDITION, keyword, operator, expression-or-its-Unmarshal()] and read back from a row of width 4, positions 1/2/3, by checked assertions, the expression decoded by marshalDefault when it is a slice. REPROC: the reader re-processes every entry 0..Len-1 of the stack it built and replaces entry i only by the initialised Stack/Condition marshalDefault made of that very entry. R-MARSHAL also requires that the decoder creates its stacks without a capacity argument (a capacity would be observable and could drop entries). R-DISPATCH (restricted to Stack.Unmarshal, Condition.Unmarshal, Marshal): with no closure installed the built-in writer/reader runs on every path - no shortcut around it. R-SEQ (Push wrapper and push loops, from C01): the reader rebuilds through Push, whose arguments reach the worker unchanged and are appended in order. The CONDITION row reader yields no Condition only when its nested expression decoded to neither an initialised Stack nor an initialised Condition (an empty Stack is still a Stack). R-SEQ for Replace (nested rows are converted in place through it: every position 0..Len-1 can be replaced) and R-BACKCAP (the capacity IsEqual compares is the configured one). The label written is the kind word, never a presentation setting; an uninitialised receiver that adopts the decoded stack returns the decoder's own verdict (an empty stack such as [AND] is a stack). R-DISPATCH also covers the two IsEqual dispatchers (with no closure installed nothing but the built-in comparison decides - e.g. not the FIFO mode, which the wire format does not carry) and R-CONV the converters (the writer expands exactly what they recognise). R-CONDSTORE: the constructor the reader rebuilds Conditions through offers each of the three components on every path, with its own argument, whatever became of the others (a partial Condition keeps its expression). R-SEQ: Replace - through which nested rows are installed - refuses a value only for being nil. R-TBL KINDS: (*nodeConfig).kind is evaluated over the kind constants (a small constant interpreter follows its paths with the type word bound to each constant): no defined kind, BASIC included, is labelled \"null\". R-CONV: stack.unmarshalDefault hands an element back raw only where both converters declined that very element. Shared conversion helpers, checked in every property that recognises nested Stacks/Conditions: derefPtr follows pointers to the end, only while non-nil, type and value together (R-COVER), isStackKind judges by the pointer-flattened type (R-TT), and the converters write no package-level state (R-CONV: no memo keyed by type). R-MARSHAL: nothing reachable from Marshal, Unmarshal or IsEqual writes package-level state, and Marshal writes nothing through its input argument (the caller's slices stay equal to what Unmarshal produced). R-COVER: the comparison of original and reconstruction decides through the confirmed external comparers only.",
 		NotDecided: "that Marshal(Unmarshal(S)) is deeply equal to S (value equality over trees; options such as capacity, fold or symbols are not part of the wire format by design); user-installed marshaler/unmarshaler closures.",
 		Run: func(c *Ctx) {
 			c.converterHelpers()
@@ -179,6 +181,10 @@ var properties = map[string]PropSpec{
 			c.ruleWrapperRefusals() // ... and nested rows through Replace, which refuses a value only for being nil (an empty Stack is a value)
 			c.ruleKindLabels()      // the writer has the type word's own label for every kind (BASIC included)
 			c.ruleUnmarshalRaw()    // an element comes back raw only after both converters declined it
+			c.ruleReaderStateless() // no package-level state, and the input slices are left as given
+			if roots := []*ssa.Function{c.p.ByName["Stack.IsEqual"], c.p.ByName["Condition.IsEqual"]}; roots[0] != nil && roots[1] != nil {
+				c.ruleEqDeciders(c.reach(roots...)) // IsEqual(original, reconstruction) decides through the confirmed comparers only
+			}
 			c.rep.floor("R-DISPATCH", 3)
 			c.rep.floor("R-TBL", 7)
 			c.rep.floor("R-MARSHAL", 1)
@@ -186,7 +192,7 @@ var properties = map[string]PropSpec{
 	},
 	"C15": {
 		Level: "other",
-		Explanation: "R-XFER, decided on Stack.Transfer and its worker. SRC: the transitive write sets of both have no location rooted at the source (content, configuration, lock bookkeeping), and an element is pushed only in states where destination != source is established (a stack is never transferred into itself). GUARD: the worker is reached only for an initialised source, a destination the converter accepts (native, alias, pointer) and a destination whose own read-only flag is clear; its verdict is returned and every other path returns false; the worker receives (source, converted destination). FIT: a push is reachable only on paths where the destination has no capacity or Len(src) <= cap(dst) - len(dst) holds for the headers found (linear entailment), so a transfer that does not fit writes nothing and reports false. ALL: the copy loop runs i = 0, 1, ... while i < Len(src), pushes exactly src.index(i) - whether or not the lookup reports it found, so nil elements are copied - once per iteration, and nothing else in the worker writes. TRUE: the verdict is dst.ulen() after the loop == dst.ulen() before it + src.ulen(). R-NIL/R-REFL/R-BND census over Transfer's scope (zero, foreign and typed-nil destinations cannot panic). R-BACKCAP: the room test uses the configured capacity only. R-SEQ (wrappers, push loops, batch forwarding): Transfer appends through Push, whose arguments reach the append loops unchanged. R-SEQ on stack.index, through which the source is read: position translation, found = not nil, and an in-range index yields nothing only for a nil slot (a typed nil pointer element is transferred as it is). Shared option helpers, checked in every property whose statement depends on an option: the bit helpers are exact |= / &^= / test (R-MASK), the option constants are distinct single bits (R-FLAGS), and the tests every option read goes through - (*nodeConfig).valid and getState - depend on the kind word and the raw bit only (R-TT). Shared conversion helpers, checked in every property that recognises nested Stacks/Conditions: derefPtr follows pointers to the end, only while non-nil, type and value together (R-COVER), isStackKind judges by the pointer-flattened type (R-TT), and the converters write no package-level state (R-CONV: no memo keyed by type).",
+		Explanation: "R-XFER, decided on Stack.Transfer and its worker. SRC: the transitive write sets of both have no location rooted at the source (content, configuration, lock bookkeeping), and an element is pushed only in states where destination != source is established (a stack is never transferred into itself). GUARD: the worker is reached only for an initialised source, a destination the converter accepts (native, alias, pointer) and a destination whose own read-only flag is clear; its verdict is returned and every other path returns false; the worker receives (source, converted destination). FIT: a push is reachable only on paths where the destination has no capacity or Len(src) <= cap(dst) - len(dst) holds for the headers found (linear entailment), so a transfer that does not fit writes nothing and reports false. ALL: the copy loop runs i = 0, 1, ... while i < Len(src), pushes exactly src.index(i) - whether or not the lookup reports it found, so nil elements are copied - once per iteration, and nothing else in the worker writes. TRUE: the verdict is dst.ulen() after the loop == dst.ulen() before it + src.ulen(). R-NIL/R-REFL/R-BND census over Transfer's scope (zero, foreign and typed-nil destinations cannot panic). R-BACKCAP: the room test uses the configured capacity only. R-SEQ (wrappers, push loops, batch forwarding): Transfer appends through Push, whose arguments reach the append loops unchanged. R-SEQ on stack.index, through which the source is read: position translation, found = not nil, and an in-range index yields nothing only for a nil slot (a typed nil pointer element is transferred as it is). Shared option helpers, checked in every property whose statement depends on an option: the bit helpers are exact |= / &^= / test (R-MASK), the option constants are distinct single bits (R-FLAGS), and the tests every option read goes through - (*nodeConfig).valid and getState - depend on the kind word and the raw bit only (R-TT). Shared conversion helpers, checked in every property that recognises nested Stacks/Conditions: derefPtr follows pointers to the end, only while non-nil, type and value together (R-COVER), isStackKind judges by the pointer-flattened type (R-TT), and the converters write no package-level state (R-CONV: no memo keyed by type). R-APPEND: the append loops Transfer feeds append the offered values themselves and nothing a loop calls appends on its own (a refused nested Stack is dropped, not replaced by its members).",
 		NotDecided: "that on success the destination holds its previous elements followed by the source's in order (sequence equality: follows from C01's push specification plus ALL, not mechanised as one statement); a destination whose push policy or no-nesting option rejects elements is modified partially and false is returned (outside the statement).",
 		Run: func(c *Ctx) {
 			c.optionHelpers()
@@ -200,13 +206,14 @@ var properties = map[string]PropSpec{
 			c.ruleBackingCap()
 			c.seqWrappers()  // Transfer appends through Push: arguments reach the worker unchanged ...
 			c.seqPushLoops() // ... and the append loops receive the worker's own batch, appended in order
+			c.rulePushLoops() // ... appending only the offered values themselves (nothing a callee of the loop appends on its own)
 			c.rep.floor("R-XFER", 4)
 			c.rep.floor("R-NIL", 50)
 		},
 	},
 	"C05": {
 		Level: "other",
-		Explanation: "Necessary conditions of 'IsEqual rejects any difference and never panics', decided on everything reachable from Stack.IsEqual and Condition.IsEqual. R-LOOPRET (every comparison loop: stack.isEqual, slicesEqual, structsEqual, mapsEqual): the error variable is a latch - each comparison whose verdict is stored into it is made only in states where it is still nil, so a difference found at one element can never be overwritten by a later nil; the function returns that variable (or, straight out of the loop, the verdict/fresh error just obtained); counting loops start at 0, advance by exactly one, fetch both sides at the loop counter itself, are bounded by the length (Len/NumField/ulen) and can be left only when the counter reached the bound, a difference is recorded, or an error is returned. NILRET: each equality function returns nil only on paths on which every comparison it made outside a loop returned nil. R-COVER: on every accepting path of condition.isEqual the keywords were compared equal, the operators are both absent or their String() and Context() were both compared equal, and the verdict returned is valuesEqual(r.ex, o.ex); on every accepting path of stack.isEqual the two are the same object or capLenEqual held, the kinds were compared equal, and the element loop compares r.index(i) with o.index(i). R-NIL/R-REFL/R-CANIF/R-TA/R-BND census over the scope: typed nil pointers of any depth, zero reflect.Values, unexported struct fields, missing map keys cannot panic; every reflect.Value method called is classified (panic conditions tabled or known total) and Value.Equal is reached only with operands accepted by isKnownPrimitive. R-DISPATCH (restricted to the two IsEqual dispatchers): a nil verdict comes from the built-in comparison or from an installed closure, never from an exit taken ahead of them. derefPtr follows a pointer chain to its end: its loop is left only on a non-pointer type, a non-pointer value or a nil pointer (no hop limit). External deciders: every function from outside the package that returns a bool or an int and is called inside the equality scope must be in a table of reviewed functions (reflect's IsValid/IsNil/IsZero/CanInterface/Len/Cap/Equal, unicode.IsUpper in foldValue, exact comparers of strings/bytes); anything else - strings.EqualFold, reflect.DeepEqual, prefix/substring tests - is reported as an unreviewed notion of equality. R-BACKCAP: the capacity compared is the configured one, never the backing array's. R-CONV (all of C12's converter rules): a nested Stack/Condition is declined by the converters only when nil, zero or unrelated - otherwise it would be compared as a plain struct, whose unexported fields are skipped - and type identity is tested only in the confirmed leaf comparers. The kind two stacks are compared by carries no presentation setting (symbol, delimiter). isNumberPrimitive recognises all 14 numeric types of the language; capLenEqual is true exactly when capacities and lengths both agree (R-TT). R-TT on stackageStructsEqual: 'tried' is true exactly when the left operand is a Condition or a Stack, so a Stack against a Condition ends in this function's error and never in the generic struct comparison. Shared conversion helpers, checked in every property that recognises nested Stacks/Conditions: derefPtr follows pointers to the end, only while non-nil, type and value together (R-COVER), isStackKind judges by the pointer-flattened type (R-TT), and the converters write no package-level state (R-CONV: no memo keyed by type).",
+		Explanation: "Necessary conditions of 'IsEqual rejects any difference and never panics', decided on everything reachable from Stack.IsEqual and Condition.IsEqual. R-LOOPRET (every comparison loop: stack.isEqual, slicesEqual, structsEqual, mapsEqual): the error variable is a latch - each comparison whose verdict is stored into it is made only in states where it is still nil, so a difference found at one element can never be overwritten by a later nil; the function returns that variable (or, straight out of the loop, the verdict/fresh error just obtained); counting loops start at 0, advance by exactly one, fetch both sides at the loop counter itself, are bounded by the length (Len/NumField/ulen) and can be left only when the counter reached the bound, a difference is recorded, or an error is returned. NILRET: each equality function returns nil only on paths on which every comparison it made outside a loop returned nil. R-COVER: on every accepting path of condition.isEqual the keywords were compared equal, the operators are both absent or their String() and Context() were both compared equal, and the verdict returned is valuesEqual(r.ex, o.ex); on every accepting path of stack.isEqual the two are the same object or capLenEqual held, the kinds were compared equal, and the element loop compares r.index(i) with o.index(i). R-NIL/R-REFL/R-CANIF/R-TA/R-BND census over the scope: typed nil pointers of any depth, zero reflect.Values, unexported struct fields, missing map keys cannot panic; every reflect.Value method called is classified (panic conditions tabled or known total) and Value.Equal is reached only with operands accepted by isKnownPrimitive. R-DISPATCH (restricted to the two IsEqual dispatchers): a nil verdict comes from the built-in comparison or from an installed closure, never from an exit taken ahead of them. derefPtr follows a pointer chain to its end: its loop is left only on a non-pointer type, a non-pointer value or a nil pointer (no hop limit). External deciders: every function from outside the package that returns a bool or an int and is called inside the equality scope must be in a table of reviewed functions (reflect's IsValid/IsNil/IsZero/CanInterface/Len/Cap/Equal, unicode.IsUpper in foldValue, exact comparers of strings/bytes); anything else - strings.EqualFold, reflect.DeepEqual, prefix/substring tests - is reported as an unreviewed notion of equality. R-BACKCAP: the capacity compared is the configured one, never the backing array's. R-CONV (all of C12's converter rules): a nested Stack/Condition is declined by the converters only when nil, zero or unrelated - otherwise it would be compared as a plain struct, whose unexported fields are skipped - and type identity is tested only in the confirmed leaf comparers. The kind two stacks are compared by carries no presentation setting (symbol, delimiter). isNumberPrimitive recognises all 14 numeric types of the language; capLenEqual is true exactly when capacities and lengths both agree (R-TT). R-TT on stackageStructsEqual: 'tried' is true exactly when the left operand is a Condition or a Stack, so a Stack against a Condition ends in this function's error and never in the generic struct comparison. Shared conversion helpers, checked in every property that recognises nested Stacks/Conditions: derefPtr follows pointers to the end, only while non-nil, type and value together (R-COVER), isStackKind judges by the pointer-flattened type (R-TT), and the converters write no package-level state (R-CONV: no memo keyed by type). R-COVER: ComparisonOperator.String, evaluated over the six constants, yields six pairwise different non-empty texts (operators are compared by text).",
 		NotDecided: "symmetry of the verdict and completeness of rejection for every leaf kind (semantics of reflect.Value.Equal, kind lattice, map iteration): value-level reasoning. Known gap observed by testing, not decided here: a []Stack / []Condition leaf is compared through reflect.Values, which skips the unexported embedded pointer (two such leaves differing only inside a nested stack compare equal).",
 		Run: func(c *Ctx) {
 			c.converterHelpers()
@@ -237,6 +244,7 @@ var properties = map[string]PropSpec{
 			c.ruleBackingCap() // the capacity compared is the configured one, never the backing array's
 			c.ruleConv()       // the converters decline only nil, zero and unrelated values (else a nested instance is compared as a plain struct)
 			c.ttStackageStructsTried() // a Stack against a Condition ends in the package's own comparison, never in the generic struct one
+			c.ruleOperatorTexts()      // operators are compared by text: the six built-in texts are pairwise different
 			c.rep.floor("R-LOOPRET", 14)
 			c.rep.floor("R-COVER", 2)
 			c.rep.floor("R-REFL", 20)
@@ -244,7 +252,7 @@ var properties = map[string]PropSpec{
 	},
 	"C07": {
 		Level: "other",
-		Explanation: "Traverse is implemented by four loop-free, mutually recursive functions; stepwise Index descent is a finite decision at each level, so agreement is decided per level and follows for every path length and tree by induction on the path. R-LEVEL: each level consumes exactly one path element - stack.traverse reads indices[0] only, every call inside the group passes the path on unchanged, and the single recursive call of traverse receives exactly indices[1:]; the path is used for nothing else. R-TRAV (tables, return paths enumerated exactly): traverse hands the handler the element stack.index returned for indices[0] and only when that lookup reported it found (non-nil), otherwise (nil,false) - also for an invalid receiver and an empty path; traverseStack returns (value,true) for a Stack/alias at the end of the path, the results of the descent into the Stack it converts to when elements remain, (nil,false) for a non-Stack; traverseStackInCondition returns (the Condition,true) at the end of the path, continues with the Condition's own Expression() when elements remain, (nil,false) for a non-Condition; the handler returns the Stack helper's results if it succeeded, else the Condition helper's, else (element,true) for a leaf at the end of the path, else (nil,false); Stack.Traverse forwards path and results and yields (nil,false) when uninitialised. Lookup = the same stack.index that Index uses (position translation proved in C01). R-NIL/R-REFL/R-BND/R-TA census restricted to everything reachable from Traverse: no tree or path can panic. R-CONV (from C12): 'descendable' is what the converters say, and they decline only nil, zero and unrelated values on every path (no cached or validity-dependent verdict). stack.traverse gives up (returns nothing without consulting the handler) only because the receiver is invalid, the path is empty or the lookup itself - which honours the index options - reported 'not found'. R-TT on (*stack).valid - the gate of every level: initialised and, if a validity closure is installed, approved by it; nothing else (a recorded error) closes the gate. R-SEQ wrappers: the exported Index returns the private lookup's results unchanged. R-COVER: derefPtr advances type and value together (each Type.Elem with a Value.Elem on the same straight-line path), so a typed nil pointer never reaches Convert with a mismatched type. R-PAIR: Condition.Expression, through which a Condition is descended, answers the stored value on every path of an initialised instance. Shared option helpers, checked in every property whose statement depends on an option: the bit helpers are exact |= / &^= / test (R-MASK), the option constants are distinct single bits (R-FLAGS), and the tests every option read goes through - (*nodeConfig).valid and getState - depend on the kind word and the raw bit only (R-TT). Shared conversion helpers, checked in every property that recognises nested Stacks/Conditions: derefPtr follows pointers to the end, only while non-nil, type and value together (R-COVER), isStackKind judges by the pointer-flattened type (R-TT), and the converters write no package-level state (R-CONV: no memo keyed by type).",
+		Explanation: "Traverse is implemented by four loop-free, mutually recursive functions; stepwise Index descent is a finite decision at each level, so agreement is decided per level and follows for every path length and tree by induction on the path. R-LEVEL: each level consumes exactly one path element - stack.traverse reads indices[0] only, every call inside the group passes the path on unchanged, and the single recursive call of traverse receives exactly indices[1:]; the path is used for nothing else. R-TRAV (tables, return paths enumerated exactly): traverse hands the handler the element stack.index returned for indices[0] and only when that lookup reported it found (non-nil), otherwise (nil,false) - also for an invalid receiver and an empty path; traverseStack returns (value,true) for a Stack/alias at the end of the path, the results of the descent into the Stack it converts to when elements remain, (nil,false) for a non-Stack; traverseStackInCondition returns (the Condition,true) at the end of the path, continues with the Condition's own Expression() when elements remain, (nil,false) for a non-Condition; the handler returns the Stack helper's results if it succeeded, else the Condition helper's, else (element,true) for a leaf at the end of the path, else (nil,false); Stack.Traverse forwards path and results and yields (nil,false) when uninitialised. Lookup = the same stack.index that Index uses (position translation proved in C01). R-NIL/R-REFL/R-BND/R-TA census restricted to everything reachable from Traverse: no tree or path can panic. R-CONV (from C12): 'descendable' is what the converters say, and they decline only nil, zero and unrelated values on every path (no cached or validity-dependent verdict). stack.traverse gives up (returns nothing without consulting the handler) only because the receiver is invalid, the path is empty or the lookup itself - which honours the index options - reported 'not found'. R-TT on (*stack).valid - the gate of every level: initialised and, if a validity closure is installed, approved by it; nothing else (a recorded error) closes the gate. R-SEQ wrappers: the exported Index returns the private lookup's results unchanged. R-COVER: derefPtr advances type and value together (each Type.Elem with a Value.Elem on the same straight-line path), so a typed nil pointer never reaches Convert with a mismatched type. R-PAIR: Condition.Expression, through which a Condition is descended, answers the stored value on every path of an initialised instance. Shared option helpers, checked in every property whose statement depends on an option: the bit helpers are exact |= / &^= / test (R-MASK), the option constants are distinct single bits (R-FLAGS), and the tests every option read goes through - (*nodeConfig).valid and getState - depend on the kind word and the raw bit only (R-TT). Shared conversion helpers, checked in every property that recognises nested Stacks/Conditions: derefPtr follows pointers to the end, only while non-nil, type and value together (R-COVER), isStackKind judges by the pointer-flattened type (R-TT), and the converters write no package-level state (R-CONV: no memo keyed by type). R-SEQ on stack.index, which every level of Traverse goes through: with the option on a negative index is refused only below -Len and an oversize one never, so Traverse and a chain of Index calls resolve alike. R-PURE: Traverse writes nothing - not into the caller's path slice either.",
 		NotDecided: "that the converters recognise exactly the Stack/Condition aliases (C12); equality with an independently written oracle on concrete trees (the induction argument is by reading the tables, not mechanised end to end).",
 		Run: func(c *Ctx) {
 			c.optionHelpers()
@@ -259,6 +267,8 @@ var properties = map[string]PropSpec{
 			c.ruleConv() // "descendable" is what the converters say: they decline only nil, zero and unrelated values (no stale verdict)
 			c.ruleDerefLoop()   // pointers are flattened type and value in step (a typed nil pointer never reaches Convert with a mismatched type)
 			c.ruleCondGetters() // a Condition is descended through Expression(), which answers the stored value whatever the options say
+			c.seqIndex()        // every level resolves its index like Index: -Len..-1 and oversize indices are honoured exactly when the option is on
+			c.rulePure()        // Traverse writes nothing - in particular not into the caller's path slice
 			c.rep.floor("R-LEVEL", 4)
 			c.rep.floor("R-TRAV", 5)
 			c.rep.floor("R-NIL", 60)
@@ -266,7 +276,7 @@ var properties = map[string]PropSpec{
 	},
 	"C01": {
 		Level: "other",
-		Explanation: "Each mutator is verified, once and for all inputs, against the list operation the property names, by a symbolic sequence algebra over the SSA: the header a mutator leaves behind is evaluated on every path as a concatenation of segments of the header it found (h0) and single values, and compared with the specification by linear entailment (Fourier-Motzkin). Pop: h0 without slot k and the value returned is h0[k], k = 1 under FIFO and len-1 otherwise; untouched header and (nil,false) when empty. Insert: h0 with x inserted exactly once at the clamped position (end when left >= Len, front when left <= 0, slot left+1 otherwise), everything else unchanged and in order, flag false on non-storing paths. Reset: h0[:1]. Replace: one element store of the argument at slot i+1, flag true exactly when stored. Swap: two element stores exchanging the values found at slots i+1 and j+1. Reverse: the loop exchanges mirror slots (a + b == len, by a conserved-sum loop invariant), starting at (1, len-1), one step per iteration, a <= b in the body and a >= b at every exit (no pair skipped, none exchanged twice). Remove: a filter loop over slots 1..len-1 in ascending order keeping every slot except the looked-up position, stored as [configuration] ++ kept, returning the element looked up. Push: both append loops visit x[0], x[1], ... one per iteration and append at the end of the current header (nil values included: no nil test). stack.index: i in [0,Len) addresses slot i+1, -k slot len-k, an oversize index the last slot (options on), and the value returned is the slot at the position returned. The nine exported wrappers hand their arguments to the worker unchanged and return its results. R-SLOT0: no header store or element store can lose, move or overwrite the configuration slot, so Len() == len(header)-1 always (R-CAPEQ Stack.Len). R-ELEMINDEP: Reset does not depend on element values. Since every mutator is a list operation on the header it finds, the content after any sequential history is that of the ordered list, by induction on the history. R-CAPEQ (from C03): the fullness test both push loops rely on is exactly len(header) == configured capacity (not the backing array's). stack.index's found flag means exactly 'the slot is not nil'. Front and Back: one upward scan 0..Len-1 and one downward scan Len-1..0, each in its mode, left only past the last position or with a position found. Replace stores for exactly the indices 0..Len-1 (a non-storing path is confined to i<0 or i>=Len). The worker push hands its own batch to the append loops untouched. R-LATCH: FIFO mode is a one-way latch ('once FIFO mode is on'). R-TT: IsEmpty - which gates Pop and Reverse - is true exactly for an uninitialised instance or Len()==0. R-BACKCAP: builtin cap() is never applied to a stack (only the configured capacity is consulted). Pop re-slices the header and writes no element slot. R-MASK/R-FLAGS: the options that change what an index means (negative, forward) and the read-only flag are switched by exact |= / &^= of one distinct bit. stack.index yields nothing for an in-range index only when the slot holds nil. Insert/Replace refuse a value only for being nil: a path of the wrapper that returns without having called the worker depends on the receiver and on the nil-ness of the value, on nothing else about it. Shared option helpers, checked in every property whose statement depends on an option: the bit helpers are exact |= / &^= / test (R-MASK), the option constants are distinct single bits (R-FLAGS), and the tests every option read goes through - (*nodeConfig).valid and getState - depend on the kind word and the raw bit only (R-TT).",
+		Explanation: "Each mutator is verified, once and for all inputs, against the list operation the property names, by a symbolic sequence algebra over the SSA: the header a mutator leaves behind is evaluated on every path as a concatenation of segments of the header it found (h0) and single values, and compared with the specification by linear entailment (Fourier-Motzkin). Pop: h0 without slot k and the value returned is h0[k], k = 1 under FIFO and len-1 otherwise; untouched header and (nil,false) when empty. Insert: h0 with x inserted exactly once at the clamped position (end when left >= Len, front when left <= 0, slot left+1 otherwise), everything else unchanged and in order, flag false on non-storing paths. Reset: h0[:1]. Replace: one element store of the argument at slot i+1, flag true exactly when stored. Swap: two element stores exchanging the values found at slots i+1 and j+1. Reverse: the loop exchanges mirror slots (a + b == len, by a conserved-sum loop invariant), starting at (1, len-1), one step per iteration, a <= b in the body and a >= b at every exit (no pair skipped, none exchanged twice). Remove: a filter loop over slots 1..len-1 in ascending order keeping every slot except the looked-up position, stored as [configuration] ++ kept, returning the element looked up. Push: both append loops visit x[0], x[1], ... one per iteration and append at the end of the current header (nil values included: no nil test). stack.index: i in [0,Len) addresses slot i+1, -k slot len-k, an oversize index the last slot (options on), and the value returned is the slot at the position returned. The nine exported wrappers hand their arguments to the worker unchanged and return its results. R-SLOT0: no header store or element store can lose, move or overwrite the configuration slot, so Len() == len(header)-1 always (R-CAPEQ Stack.Len). R-ELEMINDEP: Reset does not depend on element values. Since every mutator is a list operation on the header it finds, the content after any sequential history is that of the ordered list, by induction on the history. R-CAPEQ (from C03): the fullness test both push loops rely on is exactly len(header) == configured capacity (not the backing array's). stack.index's found flag means exactly 'the slot is not nil'. Front and Back: one upward scan 0..Len-1 and one downward scan Len-1..0, each in its mode, left only past the last position or with a position found. Replace stores for exactly the indices 0..Len-1 (a non-storing path is confined to i<0 or i>=Len). The worker push hands its own batch to the append loops untouched. R-LATCH: FIFO mode is a one-way latch ('once FIFO mode is on'). R-TT: IsEmpty - which gates Pop and Reverse - is true exactly for an uninitialised instance or Len()==0. R-BACKCAP: builtin cap() is never applied to a stack (only the configured capacity is consulted). Pop re-slices the header and writes no element slot. R-MASK/R-FLAGS: the options that change what an index means (negative, forward) and the read-only flag are switched by exact |= / &^= of one distinct bit. stack.index yields nothing for an in-range index only when the slot holds nil. Insert/Replace refuse a value only for being nil: a path of the wrapper that returns without having called the worker depends on the receiver and on the nil-ness of the value, on nothing else about it. Shared option helpers, checked in every property whose statement depends on an option: the bit helpers are exact |= / &^= / test (R-MASK), the option constants are distinct single bits (R-FLAGS), and the tests every option read goes through - (*nodeConfig).valid and getState - depend on the kind word and the raw bit only (R-TT). R-APPEND: the worker push appends only through the two per-value loops, each append is gated on that very value, and nothing a loop calls appends to the receiver on its own.",
 		NotDecided: "Front/Back (they skip nil slots by a scan) and IsEmpty are covered only through Len/Index; the success flags of Pop/Remove for nil elements (they report false for a nil element although it was removed); capacity interaction (C03), concurrent histories (C10); the argument is an induction over verified single operations, with hand-written recognisers (level other).",
 		Run: func(c *Ctx) {
 			c.optionHelpers()
@@ -274,6 +284,7 @@ var properties = map[string]PropSpec{
 			c.ruleSlot0()
 			c.ruleSeq()
 			c.ruleWrapperRefusals() // Insert/Replace refuse a value only for being nil
+			c.rulePushLoops()       // the worker appends only through the per-value loops, and nothing they call appends on its own
 			c.ruleCapEq() // the fullness test the push loops rely on is exactly len == configured capacity
 			c.ruleBackingCap()
 			c.ruleLatch() // "once FIFO mode is on": the mode is a one-way latch
@@ -338,7 +349,7 @@ var properties = map[string]PropSpec{
 	},
 	"C08": {
 		Level: "other",
-		Explanation: "The panic-site census of the whole package, for every argument value. R-BND: every index, slice and string-index expression (about 110 non-trivial sites) is proved in range on every path by linear entailment (Fourier-Motzkin) from the path's branch facts; user integers are unconstrained 64-bit values and a sum/difference/product is related to its operands only when the facts prove it cannot overflow (so MinInt/MaxInt are covered); loop counters get inductive bounds; helper functions returning lengths are inlined by return case; preconditions of unexported workers are checked at every call site and exported entry points may have none; element writes and user-element reads on a stack need index >= 1, so the configuration slot can never be written or returned through an index. R-NIL / R-REFL / R-CANIF: every nil-dereference and every panicking reflect.Value call is discharged likewise (typed nil pointers of any depth, zero Stacks/Conditions, zero reflect.Values, unexported struct fields). R-TA: every unchecked type assertion is dominated by the matching type test. R-DIV: no division by a possibly-zero integer. A method is looked up on a reflect.Value only where it tested non-zero/non-nil (calling a value-receiver method bound to a nil pointer panics). No explicit panic and no goroutine exist (R-BASE). R-SEQ (the sequence specifications of C01, restricted to the index-taking operations insert, replace, swap, remove and the position translation of stack.index): for every int argument the header left behind is the header found with exactly the prescribed change, a failing index stores nothing and reports failure, and the configuration record never ends up in a user slot. R-NILPTR: a method of the package's own interfaces (Operator, Interface) is invoked on a user-supplied value only where an in-package nil-pointer predicate said no about it, or on the operator stored in a Condition: a nil *Stack / *Condition / *ComparisonOperator among the values never has a method called through it. R-LEVEL/R-TRAV (from C07): Traverse gives up only for the reasons the lookup gives; no test of its own on a path element can ignore the negative/forward index options. R-LOCK pairing and re-entrancy over the whole package: a call that fails (an index addressing nothing) never returns with the stack's lock held, and no method locks a stack it already holds - the stack stays usable. R-MASK/R-FLAGS: the negative/forward index options are switched by exact |= / &^= of one distinct bit (a redundant 'off' cannot switch them on). Shared option helpers, checked in every property whose statement depends on an option: the bit helpers are exact |= / &^= / test (R-MASK), the option constants are distinct single bits (R-FLAGS), and the tests every option read goes through - (*nodeConfig).valid and getState - depend on the kind word and the raw bit only (R-TT).",
+		Explanation: "The panic-site census of the whole package, for every argument value. R-BND: every index, slice and string-index expression (about 110 non-trivial sites) is proved in range on every path by linear entailment (Fourier-Motzkin) from the path's branch facts; user integers are unconstrained 64-bit values and a sum/difference/product is related to its operands only when the facts prove it cannot overflow (so MinInt/MaxInt are covered); loop counters get inductive bounds; helper functions returning lengths are inlined by return case; preconditions of unexported workers are checked at every call site and exported entry points may have none; element writes and user-element reads on a stack need index >= 1, so the configuration slot can never be written or returned through an index. R-NIL / R-REFL / R-CANIF: every nil-dereference and every panicking reflect.Value call is discharged likewise (typed nil pointers of any depth, zero Stacks/Conditions, zero reflect.Values, unexported struct fields). R-TA: every unchecked type assertion is dominated by the matching type test. R-DIV: no division by a possibly-zero integer. A method is looked up on a reflect.Value only where it tested non-zero/non-nil (calling a value-receiver method bound to a nil pointer panics). No explicit panic and no goroutine exist (R-BASE). R-SEQ (the sequence specifications of C01, restricted to the index-taking operations insert, replace, swap, remove and the position translation of stack.index): for every int argument the header left behind is the header found with exactly the prescribed change, a failing index stores nothing and reports failure, and the configuration record never ends up in a user slot. R-NILPTR: a method of the package's own interfaces (Operator, Interface) is invoked on a user-supplied value only where an in-package nil-pointer predicate said no about it, or on the operator stored in a Condition: a nil *Stack / *Condition / *ComparisonOperator among the values never has a method called through it. R-LEVEL/R-TRAV (from C07): Traverse gives up only for the reasons the lookup gives; no test of its own on a path element can ignore the negative/forward index options. R-LOCK pairing and re-entrancy over the whole package: a call that fails (an index addressing nothing) never returns with the stack's lock held, and no method locks a stack it already holds - the stack stays usable. R-MASK/R-FLAGS: the negative/forward index options are switched by exact |= / &^= of one distinct bit (a redundant 'off' cannot switch them on). Shared option helpers, checked in every property whose statement depends on an option: the bit helpers are exact |= / &^= / test (R-MASK), the option constants are distinct single bits (R-FLAGS), and the tests every option read goes through - (*nodeConfig).valid and getState - depend on the kind word and the raw bit only (R-TT). R-SEQ on stack.index now also proves that, with the option on, a negative index is refused only below -Len (every -k with 1 <= k <= Len addresses an element) and an oversize one never.",
 		NotDecided: "that -k addresses exactly the k-th element from the end is decided as the position translation row of stack.index plus the linear identity proved for factorNegIndex's result range; Traverse's failure behaviour is decided only through the bounds/nil obligations; panics inside user closures/String() methods and the Go runtime are excluded. One site is assumed (Defrag's truncation index, see assumptions).",
 		Run: func(c *Ctx) {
 			c.optionHelpers()
@@ -371,7 +382,7 @@ var properties = map[string]PropSpec{
 	},
 	"C06": {
 		Level: "other",
-		Explanation: "Decides the clauses of C06 that are visible in the shape of the code. (1) R-TT: the return paths of Condition.Valid are enumerated exactly and compared, row by row, with the table the property states (nil iff keyword non-empty, operator present - a built-in one within 1..6 - and expression non-nil; an installed validity closure decides instead); the same for the expression filter (defaultAssertionExpressionHandler / assertConditionExpressionValue: empty string, nil, Stack under no-nesting, pending error are refused) and for condition.string (parentheses iff requested, padding iff not disabled). (2) R-CONDSTORE: keyword/operator/expression are written only by their setters and only after the acceptance test (operator: non-nil, not a nil pointer wrapped in the interface - no method of the offered operator is invoked before an in-package predicate, itself checked to return reflect's IsNil() for every pointer, has said no - with non-empty Context() and String(); expression: the value the filter returned with ok==true), so a rejected argument leaves the previous value; Cond records Valid()'s verdict via SetErr; Condition.String renders only when Valid()==nil and returns \"\" otherwise. (3) R-NIL/R-REFL restricted to everything reachable from Cond, Init and the setters/getters: no call panics on nil, empty or wrongly typed arguments. R-IFACECMP: nowhere in the package are two non-nil interface values compared with == / != (that panics for an uncomparable dynamic type such as a slice-based user Operator), except the confirmed sites on reflect.Type values, library sentinels and operands whose kind was just tested. R-NILPTR: a method of the package's own interfaces (Operator, Interface) is invoked on a user-supplied value only where an in-package nil-pointer predicate said no about it, or on the operator stored in a Condition: a nil *Stack / *Condition / *ComparisonOperator among the values never has a method called through it. R-TT on setState (both types): the option switches the statement quantifies over set on true, clear on false and toggle on no argument. Each private setter's write set is exactly its own component (a refused argument has no other effect, e.g. no error recorded that would block later arguments). R-HANDLE: Init replaces the instance on every return path. The keyword is stored only where the argument was recognised (the asserted string, its own String() text, or a helper's first result under a true ok flag), so a wrongly typed argument cannot wipe it; the constructor records no error ahead of the expression; the encapsulation loop of C02 (every wrap is left+v+right, no 'already wrapped' shortcut) is checked here too. ComparisonOperator.Context answers one non-empty constant on every path, so a built-in operator is never refused for its number (an out-of-range one is stored and then reported by Valid). getStringer looks the String method up on the value as given. Keyword/Operator/Expression answer the stored component on every path of an initialised instance, whatever else is on record. R-ENCDUP (from C18): an encapsulation entry is refused only for an exact duplicate. Shared option helpers, checked in every property whose statement depends on an option: the bit helpers are exact |= / &^= / test (R-MASK), the option constants are distinct single bits (R-FLAGS), and the tests every option read goes through - (*nodeConfig).valid and getState - depend on the kind word and the raw bit only (R-TT). Shared conversion helpers, checked in every property that recognises nested Stacks/Conditions: derefPtr follows pointers to the end, only while non-nil, type and value together (R-COVER), isStackKind judges by the pointer-flattened type (R-TT), and the converters write no package-level state (R-CONV: no memo keyed by type). isNilPtr says yes only where Kind()==Ptr and IsNil() (a nil map/slice/func used as an operator is a usable value). R-ENCDUP: once a duplicate was found no further comparison is made (a later one could overwrite the verdict).",
+		Explanation: "Decides the clauses of C06 that are visible in the shape of the code. (1) R-TT: the return paths of Condition.Valid are enumerated exactly and compared, row by row, with the table the property states (nil iff keyword non-empty, operator present - a built-in one within 1..6 - and expression non-nil; an installed validity closure decides instead); the same for the expression filter (defaultAssertionExpressionHandler / assertConditionExpressionValue: empty string, nil, Stack under no-nesting, pending error are refused) and for condition.string (parentheses iff requested, padding iff not disabled). (2) R-CONDSTORE: keyword/operator/expression are written only by their setters and only after the acceptance test (operator: non-nil, not a nil pointer wrapped in the interface - no method of the offered operator is invoked before an in-package predicate, itself checked to return reflect's IsNil() for every pointer, has said no - with non-empty Context() and String(); expression: the value the filter returned with ok==true), so a rejected argument leaves the previous value; Cond records Valid()'s verdict via SetErr; Condition.String renders only when Valid()==nil and returns \"\" otherwise. (3) R-NIL/R-REFL restricted to everything reachable from Cond, Init and the setters/getters: no call panics on nil, empty or wrongly typed arguments. R-IFACECMP: nowhere in the package are two non-nil interface values compared with == / != (that panics for an uncomparable dynamic type such as a slice-based user Operator), except the confirmed sites on reflect.Type values, library sentinels and operands whose kind was just tested. R-NILPTR: a method of the package's own interfaces (Operator, Interface) is invoked on a user-supplied value only where an in-package nil-pointer predicate said no about it, or on the operator stored in a Condition: a nil *Stack / *Condition / *ComparisonOperator among the values never has a method called through it. R-TT on setState (both types): the option switches the statement quantifies over set on true, clear on false and toggle on no argument. Each private setter's write set is exactly its own component (a refused argument has no other effect, e.g. no error recorded that would block later arguments). R-HANDLE: Init replaces the instance on every return path. The keyword is stored only where the argument was recognised (the asserted string, its own String() text, or a helper's first result under a true ok flag), so a wrongly typed argument cannot wipe it; the constructor records no error ahead of the expression; the encapsulation loop of C02 (every wrap is left+v+right, no 'already wrapped' shortcut) is checked here too. ComparisonOperator.Context answers one non-empty constant on every path, so a built-in operator is never refused for its number (an out-of-range one is stored and then reported by Valid). getStringer looks the String method up on the value as given. Keyword/Operator/Expression answer the stored component on every path of an initialised instance, whatever else is on record. R-ENCDUP (from C18): an encapsulation entry is refused only for an exact duplicate. Shared option helpers, checked in every property whose statement depends on an option: the bit helpers are exact |= / &^= / test (R-MASK), the option constants are distinct single bits (R-FLAGS), and the tests every option read goes through - (*nodeConfig).valid and getState - depend on the kind word and the raw bit only (R-TT). Shared conversion helpers, checked in every property that recognises nested Stacks/Conditions: derefPtr follows pointers to the end, only while non-nil, type and value together (R-COVER), isStackKind judges by the pointer-flattened type (R-TT), and the converters write no package-level state (R-CONV: no memo keyed by type). isNilPtr says yes only where Kind()==Ptr and IsNil() (a nil map/slice/func used as an operator is a usable value). R-ENCDUP: once a duplicate was found no further comparison is made (a later one could overwrite the verdict). The operator text is one of six pairwise different, non-empty constants (String() evaluated over the six constants).",
 		NotDecided: "the exact rendered text (spacing, encapsulated expression rendering) - a string-valued functional property (C02's undecided part); behaviour of user Operator/Stringer implementations",
 		Run: func(c *Ctx) {
 			c.optionHelpers()
@@ -396,6 +407,7 @@ var properties = map[string]PropSpec{
 			c.ruleHandle()  // Init always replaces the instance
 			c.ruleOpContext()      // a built-in operator cannot be refused for its number: its context is one non-empty constant
 			c.ruleNilPtrExact()    // ... nor for being a nil map/slice/func: isNilPtr says yes only about pointers
+			c.ruleOperatorTexts()  // the operator text rendered is one of six different, non-empty constants
 			c.ruleStringerLookup() // stringer keywords/expressions: the method is looked up on the value as given
 			c.ruleCondGetters()    // the getters answer the stored component whenever the instance is initialised
 			c.ruleSettingsGuards() // an encapsulation entry is refused only for an exact duplicate (R-ENCDUP)
